@@ -86,14 +86,31 @@ BIN = {ast.Add: operator.add, ast.Sub: operator.sub, ast.Mult: operator.mul, ast
 SAFE_BUILTINS: dict[str, Callable] = {
     "len": len, "max": max, "min": min, "ord": ord, "chr": chr, "range": range, "any": any, "all": all, "sorted": sorted,
     "reversed": lambda x: list(reversed(x)), "abs": abs, "int": int, "set": set, "list": list, "tuple": tuple, "bool": bool, "str": str,
-    "frozenset": frozenset, "dict": dict, "hex": hex, "divmod": divmod, "repr": repr, "slice": slice, 
-    "enumerate": lambda x, start=0: list(enumerate(x, start)), "zip": lambda *a: list(zip(*a)), "sum": sum,
+    "frozenset": frozenset, "dict": dict, "hex": hex, "divmod": divmod, "repr": repr, "slice": slice,
+    "accumulate": lambda it, *a: list(__import__("itertools").accumulate(it, *a)),
+    "bisect_right": __import__("bisect").bisect_right, "bisect_left": __import__("bisect").bisect_left, "bisect": __import__("bisect").bisect, 
+    "enumerate": lambda x, start=0: list(enumerate(x, start)), "zip": lambda *a, strict=False: list(zip(*a, strict=strict)), "sum": sum,
     "repeat": lambda x, n: [x] * n,  # itertools.repeat with a count
     "chain": lambda *its: [x for it in its for x in it],  # itertools.chain
 }
 STR_METHODS = {"lower", "upper", "startswith", "endswith", "casefold", "isalpha", "swapcase", "isascii", "isdigit", "isalnum", "isupper", "islower", "strip", "lstrip", "rstrip", "split", "replace", "find", "rfind", "count", "index", "splitlines", "rsplit", "join", "encode", "isspace", "title", "zfill", "ljust", "rjust", "center", "partition", "rpartition", "expandtabs", "format"}
 LIST_METHODS = {"append", "extend", "pop", "sort", "clear", "insert", "index", "copy", "reverse", "count", "remove"}
 SET_METHODS = {"add", "update", "discard", "copy", "remove", "clear", "union", "intersection", "difference", "issubset", "issuperset", "isdisjoint"}
+
+
+# Which raising constructs of the repository's functions the model evaluated, and how they came out:
+# {(function qualname, kind, text): {"ok": n, "raise": n}} with kind / text as the exception-escape analysis
+# (sa/escape.py) names its sites.  Filled by every evaluation in the process; read by sa/escape_props.py to
+# discharge a may-raise site that the model executed without raising - or to show it raising.
+COVERAGE: dict[tuple[str, str, str], dict[str, int]] = {}
+
+
+def _cover(env: dict, kind: str, text: str, outcome: str) -> None:
+    fn = env.get("__fn__")
+    if fn is None:
+        return
+    d = COVERAGE.setdefault((fn, kind, text), {"ok": 0, "raise": 0})
+    d[outcome] += 1
 
 
 class Ev:
@@ -146,7 +163,24 @@ class Ev:
         return list(v)
 
     # ------------------------------------------------------------ expressions
-    def ev(self, n: ast.expr) -> Any:  # noqa: PLR0911, PLR0912
+    def ev(self, n: ast.expr) -> Any:
+        if isinstance(n, (ast.Subscript, ast.Call)) and "__fn__" in self.env:
+            kind = "subscript" if isinstance(n, ast.Subscript) else "call"
+            text = ast.unparse(n) if kind == "subscript" else ast.unparse(n)[:80]
+            try:
+                v = self._ev(n)
+            except _ModelRaise:
+                _cover(self.env, kind, text, "raise")
+                if kind == "call" and isinstance(n.func, ast.Attribute) and n.func.attr == "pop" and not n.args:
+                    _cover(self.env, "pop", f"{ast.unparse(n.func.value)}.pop()", "raise")
+                raise
+            _cover(self.env, kind, text, "ok")
+            if kind == "call" and isinstance(n.func, ast.Attribute) and n.func.attr == "pop" and not n.args:
+                _cover(self.env, "pop", f"{ast.unparse(n.func.value)}.pop()", "ok")
+            return v
+        return self._ev(n)
+
+    def _ev(self, n: ast.expr) -> Any:  # noqa: PLR0911, PLR0912
         self.steps += 1
         if self.steps > self.max_steps:
             raise Unsupported(f"{self.where}: evaluation does not terminate within {self.max_steps} steps on the model")
@@ -359,7 +393,7 @@ class Ev:
                 return target(*self.args_of(n), **{k.arg: self.ev(k.value) for k in n.keywords if k.arg})
             raise self.bad(n)
         callee_is_model = (isinstance(f, ast.Name) and f.id in self.env and callable(self.env[f.id])) or isinstance(f, ast.Attribute)
-        if n.keywords and not callee_is_model and not all(k.arg in ("key", "reverse", "default", "start") for k in n.keywords):
+        if n.keywords and not callee_is_model and not all(k.arg in ("key", "reverse", "default", "start", "strict") for k in n.keywords):
             raise self.bad(n, "keyword arguments")
         if isinstance(f, ast.Name):
             if f.id == "isinstance":
@@ -534,8 +568,16 @@ class Ev:
                 self.ev(s.value)
             elif isinstance(s, ast.Assign):
                 v = self.ev(s.value)
-                for t in s.targets:
-                    self.assign(t, v)
+                unpack = any(isinstance(t, (ast.Tuple, ast.List)) for t in s.targets)
+                try:
+                    for t in s.targets:
+                        self.assign(t, v)
+                except _ModelRaise:
+                    if unpack:
+                        _cover(self.env, "unpack", ast.unparse(s), "raise")
+                    raise
+                if unpack:
+                    _cover(self.env, "unpack", ast.unparse(s), "ok")
             elif isinstance(s, ast.AnnAssign):
                 if s.value is not None:
                     self.assign(s.target, self.ev(s.value))
@@ -545,6 +587,23 @@ class Ev:
                     raise self.bad(s)
                 cur = self.ev(ast.copy_location(_load(s.target), s.target))
                 rhs = self.ev(s.value)
+                # in-place operators mutate the object every other holder of it sees (list += , set |= , dict |= )
+                if isinstance(cur, list) and isinstance(s.op, ast.Add):
+                    cur.extend(self.iterate(rhs))
+                    self.assign(s.target, cur)
+                    continue
+                if isinstance(cur, list) and isinstance(s.op, ast.Mult) and isinstance(rhs, int):
+                    cur[:] = cur * rhs
+                    self.assign(s.target, cur)
+                    continue
+                if isinstance(cur, set) and isinstance(s.op, (ast.BitOr, ast.BitAnd, ast.Sub)) and isinstance(rhs, (set, frozenset)):
+                    {ast.BitOr: cur.update, ast.BitAnd: cur.intersection_update, ast.Sub: cur.difference_update}[type(s.op)](rhs)
+                    self.assign(s.target, cur)
+                    continue
+                if isinstance(cur, dict) and isinstance(s.op, ast.BitOr) and isinstance(rhs, dict):
+                    cur.update(rhs)
+                    self.assign(s.target, cur)
+                    continue
                 if isinstance(cur, Obj) and type(s.op) in DUNDER_BIN:
                     dm = self.dunder(cur, DUNDER_BIN[type(s.op)].replace("__", "__i", 1)) or self.dunder(cur, DUNDER_BIN[type(s.op)])
                     if dm is None:
@@ -601,11 +660,15 @@ class Ev:
                         raise self.bad(s)
             elif isinstance(s, ast.Assert):
                 if not self.ev(s.test):
+                    _cover(self.env, "assert", ast.unparse(s.test), "raise")
                     raise _ModelRaise("AssertionError")
+                _cover(self.env, "assert", ast.unparse(s.test), "ok")
             elif isinstance(s, ast.Raise):
                 if s.exc is None:
+                    _cover(self.env, "raise", "re-raise", "raise")
                     raise _ModelRaise(self.env.get("__active_exc__", "raise"))
                 name = ast.unparse(s.exc.func) if isinstance(s.exc, ast.Call) else ast.unparse(s.exc)
+                _cover(self.env, "raise", name, "raise")
                 raise _ModelRaise(name.split(".")[-1])
             elif isinstance(s, ast.Try):
                 try:
@@ -767,7 +830,24 @@ class Ev:
         vararg = fn.args.vararg.arg if fn.args.vararg else None
         is_ctx = any(ast.unparse(d).split(".")[-1] == "contextmanager" for d in fn.decorator_list)
 
+        memo = any(ast.unparse(d).split("(")[0].split(".")[-1] in ("lru_cache", "cache", "cached_property") for d in fn.decorator_list)
+
         def call(*args: Any, **kwargs: Any) -> Any:
+            if memo:
+                # functools.lru_cache / cache: the SAME object comes back for equal arguments - a caller that mutates
+                # it changes what every later caller gets, and the model must show that
+                store = fn.__dict__.setdefault("_sa_memo", {})
+                try:
+                    mkey = (args, tuple(sorted(kwargs.items())))
+                    hash(mkey)
+                except TypeError:
+                    raise _ModelRaise("TypeError: unhashable argument to a cached function") from None
+                if mkey not in store:
+                    store[mkey] = plain(*args, **kwargs)
+                return store[mkey]
+            return plain(*args, **kwargs)
+
+        def plain(*args: Any, **kwargs: Any) -> Any:
             if len(args) > len(params) and vararg is None:
                 raise Unsupported(f"{self.where}: arity mismatch calling {fn.name}")
             local = dict(zip(params, args))
@@ -789,6 +869,9 @@ class Ev:
             for k in fnlocals:
                 inherited.pop(k, None)
             inherited.update(local)
+            if not isinstance(fn, ast.Lambda) and "__nested__" not in inherited:
+                owner = inherited.get("__owner__")
+                inherited["__fn__"] = f"{owner}.{fn.name}" if owner else fn.name
             sub = Ev(inherited, self.where, self.methods, self.max_steps)
             sub.env["__fnlocals__"] = fnlocals
             bound = set(local)
